@@ -103,6 +103,34 @@ MODELLED = {
 }
 
 
+_MUTATED_GLOBALS = {}
+_GLOBAL_MUTATORS = {'pop', 'update', 'setdefault', 'clear', 'append', 'extend', 'insert', 'remove', 'sort', 'popitem', 'reverse', 'add', 'discard'}
+
+
+def _mutated_globals(model, mod):
+    """names assigned at module level that some function of the module updates in place or rebinds (global statement)"""
+    key = (id(model), mod)
+    if key not in _MUTATED_GLOBALS:
+        names = set(model.modassign.get(mod, {}))
+        out = set()
+        tree = model.mods.get(mod)
+        for fn in ast.walk(tree) if tree is not None else ():
+            if not isinstance(fn, (ast.FunctionDef, ast.AsyncFunctionDef)):
+                continue
+            for x in ast.walk(fn):
+                if isinstance(x, ast.Global):
+                    out |= set(x.names) & names
+                elif isinstance(x, ast.Call) and isinstance(x.func, ast.Attribute) and isinstance(x.func.value, ast.Name) and x.func.value.id in names and \
+                        x.func.attr in _GLOBAL_MUTATORS:
+                    out.add(x.func.value.id)
+                elif isinstance(x, ast.Subscript) and isinstance(x.ctx, (ast.Store, ast.Del)) and isinstance(x.value, ast.Name) and x.value.id in names:
+                    out.add(x.value.id)
+                elif isinstance(x, ast.AugAssign) and isinstance(x.target, ast.Name) and x.target.id in names:
+                    out.add(x.target.id)
+        _MUTATED_GLOBALS[key] = out
+    return _MUTATED_GLOBALS[key]
+
+
 class Obj:
     """python-level mutable things that are not terms: function references, partials, objects."""
 
@@ -909,6 +937,8 @@ class Frame:
             v = self.ctx.model.modassign[self.mod][n.id]
             if isinstance(v, ast.Constant):
                 return Cdec(v.value)
+            if n.id in _mutated_globals(self.ctx.model, self.mod):
+                return ('global', self.mod, n.id)        # module-level state some function updates: its content at call time is not the initial display
             try:
                 ast.literal_eval(v)          # a literal tuple / list / dict of constants: its value is known
                 return self.ex(v)
